@@ -76,6 +76,10 @@ RemoveGlue(out) ==
 \* result: [out, fnDone]  (fnDone: function-start trimming has seen real text and is over)
 Push(out, it, fnStart) ==
   IF it.k = "glue" THEN [out |-> Append(TrimNewlines(out), it), fnDone |-> FALSE]
+  ELSE IF it.k = "tag" THEN
+       \* (in the engine's stream a tag is its text between two markers: that text is real text as far as the trimming at
+       \* the start of a function is concerned - it ends it; glue is not affected, the marker shields it)
+       [out |-> Append(out, it), fnDone |-> fnStart # 0 /\ ~IsWs(it.v)]
   ELSE IF ~IsTextual(it) THEN [out |-> Append(out, it), fnDone |-> FALSE]
   ELSE LET g == GlueIndex(out)
            trim == g # 0 \/ fnStart # 0 IN
